@@ -38,7 +38,7 @@ ENDS = ['cdisc_close', 'sever', 'sdisc_sever', 'eio_close', 'sever_halfopen',
         'emit_ping_expired', 'sdisc_race_sever']
 STEPS = ['room', 'room', 'event', 'event', 'event_unhandled', 'garbage',
          'partial_binary', 'emit_cb', 'emit_cb', 'leave', 'reconnect_ns',
-         'cdisc', 'ack_partial', 'full_binary']
+         'cdisc', 'ack_partial', 'full_binary', 'leave_all']
 
 
 def gen(rng, tier):
@@ -302,6 +302,12 @@ def _run(case, cfg, w, kw):
             elif step == 'leave' and sid:
                 w.api('s', 'leave_room', sid, 'room%d' % (r % 3),
                       namespace=ns)
+            elif step == 'leave_all' and sid:
+                # the application's tidy-up "leave every room rooms() lists"
+                # (which includes the client's personal room)
+                for room in list(srv.rooms(sid, ns)):
+                    w.api('s', 'leave_room', sid, room, namespace=ns)
+                    w.settle()
             elif step == 'event':
                 pe.send_pkt(sio.EVENT, ns, r if r % 2 else None,
                             ['ev', r, {'b': b'x' * (r % 3)}])
